@@ -23,7 +23,10 @@ __BEGIN_DECLS
 
 static inline const char *sline_getline(struct sline *sl)
 {
-    sl->buf[sl->len] = '\0';
+    // a line without a buffer (cap == 0, e.g. before sline_setbuf) has no
+    // room for the terminator: nothing is stored through buf
+    if (sl->cap)
+        sl->buf[sl->len] = '\0';
     return sl->buf;
 }
 
